@@ -191,6 +191,26 @@ def run(prog, rep, tier):
     rep.examined(R113, bz.path, sample={"disable_calls": len(dis), "all_streamed_yearless_paths_disable": ok3})
     if not ok3:
         rep.violation(R113, bz.path, "blockzero_analysis_syslines: a streamed file whose pattern has no year can proceed without disable_drop_data(); the backward year walk would meet dropped blocks")
+    # ... and that decision lies on every way to an accepting return: no FileOk can be produced
+    # and returned on a path that never asks whether the file is streamed
+    if st:
+        region = bz.reachable(0, {st[0].bb})
+        acc = []
+        for bb in sorted(region):
+            for s_ in bz.stmts(bb):
+                if s_[0] == "=":
+                    rv = s_[2]
+                    v = None
+                    if rv[0] == "agg" and isinstance(rv[1], dict):
+                        v = rv[1].get("variant")
+                    elif rv[0] == "use" and rv[1][0] == "k" and isinstance(rv[1][2], dict):
+                        v = rv[1][2].get("variant")
+                    if v == "FileOk" and any(bz.term(x)[0] == "ret" for x in bz.reachable(bb, {st[0].bb})):
+                        acc.append(bz.blocks[bb].get("l"))
+        rep.examined(R113, bz.path + "|decision-on-every-accepting-path", sample={"accepting_results_reachable_without_the_streamed_test": acc})
+        if acc:
+            rep.violation(R113, bz.path + "|decision-on-every-accepting-path", "blockzero_analysis_syslines: the file can be accepted (FileOk built at line %s) on a path that never reaches the "
+                          "'streamed and year-less' test, so disable_drop_data() is skipped there; the backward year walk of a compressed year-less log then meets dropped blocks and output is cut short" % acc[0])
     # the drop functions honour the switch
     db = prog.body(BR + "::drop_block")
     first = db.term(0)
